@@ -12,6 +12,14 @@ Theorem c02w_sweep_line_differences : forall (a : list Z) (i : nat), (i < length
   length (sweep_vals a) = length a /\ nth i (sweep_vals a) 0 = nth i a 0 - nth (S i) a 0.
 Proof. exact (fun a i H => conj (sweep_vals_length a) (sweep_vals_spec a i H)). Qed.
 
+(* (a, by position) the in-place sweep of tw_cpp over the positions ps of one line (pairwise distinct, inside the weight vector w): the
+   values at ps become the swept values of the line, every other entry is unchanged *)
+Theorem c02w_sweep_by_position : forall (ps : list nat) (w : list Z), NoDup ps -> (forall p, In p ps -> (p < length w)%nat) ->
+  length (sweep_line ps w) = length w /\
+  map (fun p => nth p (sweep_line ps w) 0) ps = sweep_vals (map (fun p => nth p w 0) ps) /\
+  (forall q, ~ In q ps -> nth q (sweep_line ps w) 0 = nth q w 0).
+Proof. exact sweep_line_spec. Qed.
+
 (* (a') all the lines of one direction at once, on ANY duplicate-free set l (lower or not, lines with gaps): after the sweeps of
    direction d the weight of t0 is its old weight minus the old weight of the NEXT member of its line (the first index after t0 in the
    set that agrees with t0 outside d), or its old weight when t0 is the last of its line *)
@@ -45,6 +53,17 @@ Theorem c02w_weights_sum_to_one : forall (D : nat) (Theta : list idx),
   zsum (tw_lines Theta) = 1.
 Proof. exact weights_sum_one. Qed.
 
+(* (c') the combination technique is the sum of the mixed differences: for EVERY family V of integers indexed by multi-indexes
+   (V(t) = the tensor operator U_t applied to a fixed function and evaluated / integrated),
+   sum_t w(t) * V(t) = sum_t (mixed backward difference of V)(t), which for V(t) = prod_j u_j(t_j) is sum_t prod_j (u_j(t_j) - u_j(t_j - 1)),
+   the form `comb_exact` (c02_combination_exact, c03_combination_exact) is stated in.  (Z-valued families; the specialisation to
+   products and to the `list nat` indexes of CombinationProofs is not carried out here.) *)
+Theorem c02w_weights_mixed_differences : forall (D : nat) (Theta : list idx),
+  sorted Theta -> wf D Theta -> (forall t, In t Theta -> nonneg t) -> lowerZ Theta ->
+  forall V : idx -> Z, (1 <= D)%nat -> Theta <> [] ->
+  zsum (map2 Z.mul (tw_lines Theta) (map V Theta)) = zsum (map (iter_back V (seq 0 D)) Theta).
+Proof. exact weights_mixed_differences. Qed.
+
 (* non-vacuity *)
 Definition ex2 : list idx := [[0;0];[0;1];[0;2];[1;0];[1;1];[2;0]].
 Definition ex3 : list idx := [[0;0;0];[0;0;1];[0;1;0];[0;1;1];[1;0;0];[1;0;1];[1;1;0];[2;0;0]].
@@ -60,12 +79,17 @@ Proof. vm_compute. repeat split; reflexivity. Qed.
 Example c02w_example_not_lower : tw_cpp ex_notlower = tw_lines ex_notlower /\ tw_lines ex_notlower = [0;0;1;0;1]
   /\ map (incl_excl ex_notlower) ex_notlower = [2;1;2;1;1].
 Proof. vm_compute. repeat split; reflexivity. Qed.
+Definition exV (t : idx) : Z := (nth 0 t 0 + 1) * (nth 0 t 0 + 1) * (3 * nth 1 t 0 + 2).
+Example c02w_example_mixed : zsum (map2 Z.mul (tw_lines ex2) (map exV ex2)) = 33 /\ zsum (map (iter_back exV (seq 0 2)) ex2) = 33.
+Proof. vm_compute. split; reflexivity. Qed.
 Example c02w_sweep_example : sweep_vals [5;3;4;1] = [2;-1;3;1].
 Proof. reflexivity. Qed.
 
 Print Assumptions c02w_sweep_line_differences.
+Print Assumptions c02w_sweep_by_position.
 Print Assumptions c02w_sweep_direction.
 Print Assumptions c02w_weights_inclusion_exclusion.
 Print Assumptions c02w_inclusion_exclusion_iterated_difference.
 Print Assumptions c02w_inactive_tensor_weight_zero.
 Print Assumptions c02w_weights_sum_to_one.
+Print Assumptions c02w_weights_mixed_differences.
